@@ -1,6 +1,8 @@
 mod amo;
+mod cache;
 mod gen;
 mod mapping;
+mod pool;
 mod provider;
 mod rng;
 mod solve;
@@ -86,6 +88,8 @@ fn real_main() {
             None => match family.as_str() {
                 "mapping" => mapping::gen_case(&mut crng),
                 "amo" => amo::gen_case(&mut crng, i),
+                "cache" => cache::gen_case(&mut crng),
+                "pool" => pool::gen_case(&mut crng),
                 "solve" => { let k = *crng.pick(&[gen::Kind::General, gen::Kind::General, gen::Kind::Tight, gen::Kind::Tight, gen::Kind::Hints]); solve::gen_case(&mut crng, k) }
                 "soft" => solve::gen_case(&mut crng, gen::Kind::Soft),
                 "conflictfree" => solve::gen_case(&mut crng, gen::Kind::ConflictFree),
@@ -102,6 +106,8 @@ fn real_main() {
         let out = match family.as_str() {
             "mapping" => guarded(move || mapping::run_case(&l2)),
             "amo" => guarded(move || amo::run_case(&l2)),
+            "cache" => guarded(move || cache::run_case(&l2)),
+            "pool" => guarded(move || pool::run_case(&l2)),
             "solve" | "soft" | "conflictfree" => guarded(move || solve::run_case(&l2)),
             f => panic!("unknown family {f}"),
         };
